@@ -716,6 +716,14 @@ outer:
 }
 
 func (t *tScreen) Fini() {
+	t.Lock()
+	inited := t.quit != nil
+	t.Unlock()
+	if !inited {
+		// Init never completed: nothing was started, nothing to finish
+		// (and a later Init and Fini still work)
+		return
+	}
 	t.finiOnce.Do(t.finish)
 }
 
@@ -1110,7 +1118,10 @@ func (t *tScreen) putsText(capability string, p ...interface{}) {
 					one := make([]byte, 8)
 					t.encoder.Reset()
 					n, _, err := t.encoder.Transform(one, []byte(string(r)), true)
-					if err != nil || n == 0 || (one[0] == '\x1a' && r != '\x1a') {
+					if err != nil || n == 0 || (one[0] == '\x1a' && r != '\x1a') || bytes.IndexByte(one[:n], 0x1b) >= 0 {
+						// (also where the set would have to switch
+						// code tables with an escape sequence, which
+						// would end the control string: ISO-2022-JP)
 						b = append(b, '?')
 					} else {
 						b = append(b, one[:n]...)
